@@ -63,7 +63,10 @@ def handleLayout (req : Sexp) : Sexp :=
 
 /-- `(c2s id "c1" "c2" ...)` → `(s "...")` -/
 def handleC2S (req : Sexp) : Sexp :=
-  strS (commentToString ((args req).drop 1 |>.map sOf))
+  let t := commentToString ((args req).drop 1 |>.map sOf)
+  -- only what the property constrains: the settings and the two marker tests (not the flattened text itself)
+  mkList "doc" [mkList "lines" ((settingLines t).map strS),
+    .atom (toString (Str.isInfixOf converterMarker t)), .atom (toString (Str.isInfixOf variablesMarker t))]
 
 /-- `(slines id "text")` → `(lines "..." ...)` -/
 def handleSLines (req : Sexp) : Sexp :=
